@@ -367,6 +367,7 @@ func C12(c *fw.Ctx) {
 	c.R.Traces = c.R.Transitions
 	objNames(c, bound)
 	objValues(c, bound)
+	scaleObjects(c)
 }
 
 // objValues: a property exists whatever value it holds: for every value of a pool covering every kind
